@@ -204,7 +204,22 @@ func (c *Ctx) ViolateKnown(id, what string, detail map[string]any) {
 
 func (c *Ctx) violate(id, what string, detail map[string]any) {
 	c.failed = true
-	if len(c.Res.Violations) >= 25 {
+	// violations of a known-finding class occur in every case: they must never crowd out others
+	nKnown, nOther := 0, 0
+	for _, v := range c.Res.Violations {
+		if v.Known != "" {
+			if v.Known == id {
+				nKnown++
+			}
+		} else {
+			nOther++
+		}
+	}
+	if id != "" && nKnown >= 3 {
+		c.Res.Events["known-finding-occurrences-not-recorded:"+id]++
+		return
+	}
+	if id == "" && nOther >= 25 {
 		c.Res.Events["violations_not_recorded"]++
 		return
 	}
